@@ -491,3 +491,41 @@ def kronecker_sequences(ctx):
     gb.KroneckerDelta._cache.clear()
     gb.LeviCivitaTensor._cache.clear()
     ctx.ensure("constructors-independent-of-the-construction-history", not bad, bad=str(bad[:3]))
+
+
+@case("C05", "diagram.nonuniform.dims.lattice", [], kind="bounded", functions=["geometer.base.TensorDiagram.add_edge", "geometer.base.TensorDiagram.calculate"],
+      bound="tensors whose axes have DIFFERENT lengths (matrices 3x4, 2x5, 4x4x3 tensors; vectors of length 2..5): every edge whose paired axes match is accepted and equals einsum, "
+            "every edge whose paired axes differ raises TensorComputationError at add_edge")
+def diagram_nonuniform_dims(ctx):
+    """the dimension test of add_edge compares the two PAIRED axes (first unused covariant index of the source, first unused contravariant index of the target)"""
+    gb, TCE = _b()
+    rnd = random.Random(9)
+
+    def mk(shape, cov):
+        return gb.Tensor(rnd_int_array(rnd, list(shape)), covariant=cov, tensor_rank=len(shape))
+
+    for (r, c) in [(3, 4), (2, 5), (4, 3), (5, 2), (3, 3)]:
+        M = mk((r, c), [0])  # M_i^j: covariant axis of length r, contravariant axis of length c
+        for n in (2, 3, 4, 5):
+            v = mk((n,), [])  # contravariant vector: edge (M, v) pairs M's covariant axis (length r) with v
+            w = mk((n,), [0])  # covariant vector: edge (w, M) pairs w with M's contravariant axis (length c)
+            got = _safe(lambda: gb.TensorDiagram((M, v)).calculate())
+            if n == r:
+                ref = np.einsum("ij,i->j", M.array, v.array)
+                ctx.ensure("matching-paired-axes:accepted-and-equal-to-einsum", _same_tensor(got, ref, (0, 1)), witness=dict(matrix=(r, c), vector=n, edge="(M, v)", got=_shape_of(got)))
+            else:
+                ctx.ensure("mismatching-paired-axes:TensorComputationError", isinstance(got, str) and got.startswith("TensorComputationError"), witness=dict(matrix=(r, c), vector=n, edge="(M, v)", got=_shape_of(got)))
+            got = _safe(lambda: gb.TensorDiagram((w, M)).calculate())
+            if n == c:
+                ref = np.einsum("ij,j->i", M.array, w.array)
+                ctx.ensure("matching-paired-axes:accepted-and-equal-to-einsum", _same_tensor(got, ref, (1, 0)), witness=dict(matrix=(r, c), vector=n, edge="(w, M)", got=_shape_of(got)))
+            else:
+                ctx.ensure("mismatching-paired-axes:TensorComputationError", isinstance(got, str) and got.startswith("TensorComputationError"), witness=dict(matrix=(r, c), vector=n, edge="(w, M)", got=_shape_of(got)))
+    # rank 3 with three different lengths: T_{ij}^k (4, 2, 3); second covariant axis after the first is used
+    T = mk((4, 2, 3), [0, 1])
+    a, b, c = mk((4,), []), mk((2,), []), mk((3,), [0])
+    got = _safe(lambda: gb.TensorDiagram((T, a), (T, b), (c, T)).calculate())
+    ref = np.einsum("ijk,i,j,k->", T.array, a.array, b.array, c.array)
+    ctx.ensure("matching-paired-axes:accepted-and-equal-to-einsum", _same_tensor(got, ref, (0, 0)), witness=dict(tensor=(4, 2, 3), got=_shape_of(got)))
+    got = _safe(lambda: gb.TensorDiagram((T, b)).calculate())
+    ctx.ensure("mismatching-paired-axes:TensorComputationError", isinstance(got, str) and got.startswith("TensorComputationError"), witness=dict(tensor=(4, 2, 3), edge="(T, b): first covariant axis has length 4, b has 2"))
